@@ -72,7 +72,9 @@ Definition vb (k : vbk) : lcfg := {|
   l_ts := Some [SL [c_lq]; SV K_field; SL (s "."); SV K_tspart; SL [c_rq]]; l_ts_map := vb_parts;
   l_ub_str := Some [SL [c_lq]; SL (s "_="); SV K_value; SL [c_rq]];
   l_ub_num := Some [SL [c_lq]; SL (s "_ num "); SV K_value; SL [c_rq]];
-  l_ub_re := Some [SL [c_lq]; SL (s "_=~/"); SV K_value; SL (s "/"); SV K_flag_i; SV K_flag_m; SV K_flag_s; SL [c_rq]]
+  l_ub_re := Some [SL [c_lq]; SL (s "_=~/"); SV K_value; SL (s "/"); SV K_flag_i; SV K_flag_m; SV K_flag_s; SL [c_rq]];
+  l_in := Some [SL [c_lq]; SV K_field; SL (s " "); SV K_op; SL (s " ("); SV K_list; SL (s ")"); SL [c_rq]];
+  l_or_in_op := s "in"; l_and_in_op := s "contains-all"; l_list_sep := Some (s ", ")
 |}.
 
 (* ---------------------------------------------------------------------------------------------- *)
